@@ -9,6 +9,7 @@ import re
 
 from ..core import AnalysisError
 from ..index import get_index
+from ..inline import inline_helpers
 from .. import symx, spans
 from ..symx import Lin, as_lin, as_str
 
@@ -282,6 +283,7 @@ def adjacent_names(fn):
 def analyse_function(idx, mod, cls, fn, focus=None):
     """-> dict label -> list of (verdict, why, fields, line, checkpoint kind, names)"""
     res = {}
+    fn, _ = inline_helpers(idx, mod, cls, fn)
     spans.ADJACENT = adjacent_names(fn)
     facts = facts_for(idx, mod)
     if cls is not None and any(k.name == 'ChoiceModel' for k in idx.mro(cls)):
@@ -891,6 +893,9 @@ def run_modpair(chk, idx):
         if not params:
             continue
         src = params[0]
+        fn, inl = inline_helpers(idx, mod, cls, fn)
+        if inl:
+            chk.observe('%s.parse: helper calls read as their bodies: %s' % (cls.name, ', '.join(sorted(set(inl)))))
         writes_src = any(isinstance(n, ast.Attribute) and isinstance(n.ctx, ast.Store) and n.attr in ('start', 'length')
                          and isinstance(n.value, ast.Name) and n.value.id == src for n in ast.walk(fn))
         if writes_src:
